@@ -6,6 +6,7 @@
   tools/seeded.py run <sid> [--worktree]  run the quick checks of the property against the patch
                                           (default: git -C /repo apply, run, git -C /repo checkout -- . ;
                                            --worktree: scratch worktree + VERIF_REPO, does not touch /repo)
+  tools/seeded.py runall [Cxx ...] [--worktree]   the same for every seeded change (of the given properties), one after another
   tools/seeded.py index                   regenerate seeded/INDEX.md
 """
 import json, os, subprocess, sys, shutil, xml.etree.ElementTree as ET
@@ -28,6 +29,9 @@ def worktree(path):
 def verify(sid):
     d = os.path.join(S, sid)
     meta = json.load(open(os.path.join(d, "meta.json")))
+    if meta.get("retired"):
+        print(sid, "retired:", meta["retired"])
+        return
     wt = f"/tmp/wt/verify-{sid}"
     worktree(wt)
     env = dict(os.environ, PYTHONPATH=f"{wt}/src")
@@ -65,6 +69,9 @@ def run(sid, use_worktree=False, tier="quick"):
     d = os.path.join(S, sid)
     meta = json.load(open(os.path.join(d, "meta.json")))
     props = meta.get("run_checks") or [meta["property"]]
+    if meta.get("retired"):
+        print(sid, "retired:", meta["retired"])
+        return
     env = dict(os.environ)
     res = {}
     if use_worktree:
@@ -107,6 +114,8 @@ def index():
             for p, r in res.items():
                 cell.append(f"{p}/{tier}: " + ("caught (" + ", ".join(r["keys"][:3]) + ")" if r["caught"] else f"MISSED rc={r['rc']}"))
         conf = m.get("verification", {}).get("confirmed")
+        if m.get("retired"):
+            cell.append("RETIRED: " + m["retired"])
         rows.append(f"| {sid} | {m['property']} | {m.get('summary','')} | {m.get('needs','')} | {'yes' if conf else 'no'} | {'; '.join(cell)} |")
     with open(os.path.join(S, "INDEX.md"), "w") as fh:
         fh.write("# Seeded property-breaking changes\n\nWritten by independent sub-agents (property text + scratch worktree only).\n\n"
@@ -121,5 +130,13 @@ if __name__ == "__main__":
         verify(sys.argv[2])
     elif cmd == "run":
         run(sys.argv[2], "--worktree" in sys.argv, "thorough" if "--thorough" in sys.argv else "quick")
+    elif cmd == "runall":
+        only = [a for a in sys.argv[2:] if not a.startswith("--")]
+        for sid in sorted(os.listdir(S)):
+            if os.path.exists(os.path.join(S, sid, "meta.json")) and (not only or sid.split("-")[0] in only):
+                try:
+                    run(sid, "--worktree" in sys.argv)
+                except Exception as e:  # noqa
+                    print(sid, "ERROR", repr(e)[:300])
     else:
         index()
